@@ -24,7 +24,7 @@ import (
 
 func TestMain(m *testing.M) {
 	kit.Register("faults", faultsOracle)
-	kit.Describe("case = (configuration, optionally plus a user-supplied node renderer for ThematicBreak and CodeSpan that checks every write and returns the writer's error, document (large ones always contain a unit that reaches WriteRune / WriteByte / WriteString paths: numeric references to multi-byte code points, entities, titles, alt texts), API in {Convert, Parse+Render}, writer kind in {plain io.Writer, io.Writer that also has WriteByte/WriteString/WriteRune, caller bufio of 16/4096/65536 bytes}, fault mode in {fail from offset k on, fail always, fail once then succeed}); for outputs <= 600 bytes every offset k in 0..len+1 is enumerated, for large outputs (5-40 KiB) every offset within 3 bytes of a multiple of 4096 plus an arithmetic grid drawn by the generator; oracle: writer reported failure => error non-nil and errors.Is(err, injected), bytes accepted before the first failure are a prefix of the fault-free output, no panic; no failure => nil error and identical bytes; evaluations = fault runs; non-trivial = a case with at least one offset strictly inside the output; distinct by hash of the case",
+	kit.Describe("case = (configuration, optionally plus a user-supplied node renderer for ThematicBreak and CodeSpan that checks every write and returns the writer's error, document (large ones always contain a unit that reaches WriteRune / WriteByte / WriteString paths: numeric references to multi-byte code points, entities, titles, alt texts), API in {Convert, Parse+Render}, writer kind in {plain io.Writer, io.Writer that also has WriteByte/WriteString/WriteRune, caller bufio of 16/4096/65536 bytes}, fault mode in {fail from offset k on, fail always, fail once then succeed}); for outputs <= 600 bytes every offset k in 0..len+1 is enumerated, for large outputs (5-40 KiB) every offset within 3 bytes of a multiple of 4096 plus an arithmetic grid drawn by the generator; oracle: writer reported failure => error non-nil and errors.Is(err, injected), bytes accepted before the first failure are a prefix of the fault-free output, no panic; no failure => nil error and identical bytes; after all fault runs of a case the same instance converts a further document and must agree with a fresh instance; evaluations = fault runs; non-trivial = a case with at least one offset strictly inside the output; distinct by hash of the case",
 		"the injected error is a sentinel compared with errors.Is")
 	kit.Main(m, "C14")
 }
@@ -258,6 +258,25 @@ func faultsOracle(c *kit.Case) error {
 			return err
 		}
 	}
+	// aftermath: the failed runs above were calls on a long-lived instance; whatever an aborted walk or a
+	// half-flushed buffer left behind must not reach the next, healthy, conversion of another document
+	if api == 0 {
+		next := append([]byte("# another document\n\n"), src...)
+		var got, want bytes.Buffer
+		if err := mdFor(cfg, strict).Convert(next, &got); err != nil {
+			return kit.Violf("aftermath-error", "a conversion after failed ones returned %v", err)
+		}
+		var fresh = cfg.Fresh()
+		if strict {
+			fresh = nil
+		}
+		if fresh != nil {
+			_ = fresh.Convert(next, &want)
+			if !bytes.Equal(got.Bytes(), want.Bytes()) {
+				return kit.Violf("aftermath-differs", "after conversions into a failing writer the same instance renders the next document differently from a fresh instance:\n got   %q\n fresh %q", clip(got.Bytes()), clip(want.Bytes()))
+			}
+		}
+	}
 	return nil
 }
 
@@ -274,6 +293,15 @@ var richUnits = []string{
 	"# h&#233; {#i&#233;}\n\n> q&#128512;\n\n- i&#x10FFFF;&#0;&#xD800;\n\n```l&#233;\nx&#233;<\n```\n\n    c<&#233;\n\n---\n\n",
 	"| a&#233; | `b\\|c` |\n|:--|--:|\n| &#x4e2d; | ~~d&#233;~~ |\n\nf[^1] www.e&#233;.com -- \"q&#233;\"...\n\n[^1]: n&#233;\n\nt\n: d&#233;\n\n- [x] k&#233;\n\n",
 	"日本&#233;\n語 \\ &#233;  \nx\\\ny <!-- c&#233; --> <?p&#233;?>\n\n<div>\nh&#233;\n</div>\n\n___\n\n",
+	"f[^t] g[^u]\n\n[^t]: note &#233;\n\n    | a | b |\n    |:--|--:|\n    | 1 | 2 |\n\n    - [x] k\n\n[^u]: other[^t]\n\n",
+}
+
+// configurations whose renderers keep state between nodes (id prefix function, table alignment, footnote lists):
+// an aborted walk is most likely to leave something behind there
+var statefulConfigs = []gen.Config{
+	{Table: true, Footnote: true, FnPrefix: 5},
+	{GFM: true, Footnote: true, FnPrefix: 5, DefList: true, Typo: true, AutoID: true},
+	{Table: true, TableAlign: 2, Footnote: true, FnPrefix: 4, Attr: true},
 }
 
 func TestKnown(t *testing.T)  { kit.RunKnown(t) }
@@ -282,6 +310,10 @@ func TestReplay(t *testing.T) { kit.RunReplay(t) }
 func TestFaults(t *testing.T) {
 	kit.Rapid(t, "faults", 1200, 80000, func(t *rapid.T) {
 		cfg := gen.DrawConfig(t, gen.ConfigOpts{})
+		stateful := rapid.IntRange(0, 3).Draw(t, "stateful") == 0
+		if stateful {
+			cfg = rapid.SampledFrom(statefulConfigs).Draw(t, "scfg")
+		}
 		src, class := gen.Doc(t, gen.Any, 24, "d")
 		c := kit.NewCase("faults", cfg.String()).B("src", src)
 		c.I("api", int64(rapid.IntRange(0, 1).Draw(t, "api")))
@@ -290,7 +322,7 @@ func TestFaults(t *testing.T) {
 		if rapid.IntRange(0, 3).Draw(t, "strict") == 0 {
 			c.I("strict", 1)
 		}
-		large := rapid.IntRange(0, 5).Draw(t, "large") == 0
+		large := rapid.IntRange(0, 5).Draw(t, "large") == 0 || (stateful && rapid.Bool().Draw(t, "slarge"))
 		if large {
 			// large documents are repetitions of a repository test input (benign
 			// nesting, so that hundreds of conversions stay fast): 5-12 KiB of source
@@ -308,7 +340,11 @@ func TestFaults(t *testing.T) {
 			// every large document also carries a unit that drives each writer method the renderers use
 			// (WriteRune through numeric references to multi-byte code points, WriteByte/WriteString through
 			// escapes, titles, alt texts, entities), so that all of them run after the failure as well
-			src = append(src, rapid.SampledFrom(richUnits).Draw(t, "rich")...)
+			if stateful {
+				src = append(src, richUnits[len(richUnits)-1]...) // table inside a footnote: the list renderer's state spans many nodes
+			} else {
+				src = append(src, rapid.SampledFrom(richUnits).Draw(t, "rich")...)
+			}
 			c.B("src", src)
 			rep := (5000 + rapid.IntRange(0, 7000).Draw(t, "size")) / len(src)
 			if rep < 2 {
